@@ -27,6 +27,9 @@ def structures(draw, max_atoms=300, full_rank_only=False, allow_zero_periodic=Tr
             d["pbc"] = [True, True, draw(st.booleans())]
     if fam == "gas":
         d["cell"] = draw(gc.cell_descs(lo=3.0, hi=12.0, kinds=("orth", "tric", "sheared", "special"), allow_lefthanded=True))
+        if d["cell"].get("shear") is not None:
+            # moderate shears only: MatID's memory need grows with (longest cell vector / smallest cell height)^2 (see too_skewed)
+            d["cell"]["shear"] = draw(gc.shears(max_steps=2, max_k=2))
         n = draw(st.integers(1, 40))
         d["frac"] = [[draw(gc.ffloat(-0.3, 1.3)) for _ in range(3)] for _ in range(n)]
         d["Z"] = [draw(st.sampled_from(GAS_Z)) for _ in range(n)]
@@ -216,6 +219,19 @@ def build(d):
                 c[i] = 0.0
         s.set_cell(c, scale_atoms=False)
     return s
+
+
+def too_skewed(s, limit=60.0):
+    """Resource bound (DESIGN 9.4): a periodic cell whose longest periodic vector is more than `limit` times its smallest periodic
+    height (a strongly sheared description of a small lattice) makes MatID's neighbour search allocate memory in proportion to the
+    bounding box of the periodic copies - gigabytes for 20 atoms.  Such inputs are not generated as positives; counted."""
+    pbc = np.asarray(s.get_pbc())
+    cell = np.asarray(s.get_cell(), float)
+    if not pbc.any() or abs(np.linalg.det(cell)) < 1e-9:
+        return False
+    h = gc.heights(cell)
+    L = np.linalg.norm(cell, axis=1)
+    return bool(L[pbc].max() / h[pbc].min() > limit)
 
 
 def labels(d, s):
